@@ -272,7 +272,7 @@ func keyOf(s string) string {
 	return strings.Join(f, "-")
 }
 
-var writeKinds = []simnet.FaultKind{simnet.FaultWriteErr, simnet.FaultWritePartial}
+var writeKinds = []simnet.FaultKind{simnet.FaultWriteErr, simnet.FaultWritePartial, simnet.FaultWriteErrOnly, simnet.FaultWritePartialOnly}
 var readKinds = []simnet.FaultKind{simnet.FaultReadErr, simnet.FaultReadDataErr, simnet.FaultPeerEOF, simnet.FaultPeerReset, simnet.FaultLocalClose}
 
 // rawServer: a raw peer writes a prefix of a valid client session (including RPCs abandoned before
